@@ -16,7 +16,7 @@ usage: tools/mutate.py gen  [--per-prop N] [--seed S] [--props C01,C02,…]   ->
 Nothing is ever applied to /repo: each worker owns a scratch worktree /tmp/mut-w<k> of /repo HEAD
 (removed at the end together with its build output).
 """
-import argparse, difflib, hashlib, json, os, random, re, subprocess, sys, time
+import argparse, difflib, hashlib, json, os, random, re, subprocess, sys, threading, time
 from concurrent.futures import ThreadPoolExecutor
 
 ROOT = os.path.dirname(os.path.dirname(os.path.abspath(__file__)))
@@ -279,6 +279,8 @@ def run(args):
     print(f"{len(todo)} mutants to run on {args.workers} workers")
     chunks = [todo[k::args.workers] for k in range(args.workers)]
 
+    lock = threading.Lock()
+
     def work(k):
         if not chunks[k]:
             return
@@ -286,9 +288,10 @@ def run(args):
         try:
             for m in chunks[k]:
                 r = run_one(wt, m)
-                results[m["id"]] = dict(m, **r)
+                with lock:
+                    results[m["id"]] = dict(m, **r)
+                    json.dump(results, open(respath + f".{k}", "w"), indent=1)
                 print(f"{m['id']} {m['file']}:{m['line']} {m['operator']}: {r['verdict']}", flush=True)
-                json.dump(results, open(respath + f".{k}", "w"), indent=1)
         finally:
             worker_teardown(k)
 
